@@ -138,6 +138,11 @@ func runCtxProg(rep *Report, cc ctxCase, closedAt *sync.Map) {
 			releaseLock = func() { w.Close(); hcancel() }
 		case st.When == "pongWait":
 			atomic.StoreInt32(&withholdPong, 1)
+		case st.Op == "read" && st.When == "pongWriteBlocked":
+			// zero window: the peer has stopped reading, and pings -- the Read under test gets stuck in the pong it writes
+			atomic.StoreInt32(&pauseDrain, 1)
+			raw.In.Cap = 1
+			send(ws.Frame{Fin: true, Op: ws.OpPing, Payload: []byte("are-you-there")})
 		case st.When == "sharedCtxReadDone", st.When == "sharedCtxReadFirst", st.When == "sharedCtxWriteFirst":
 			atomic.StoreInt32(&pauseDrain, 1) // writes block on a zero window
 			raw.In.Cap = 1
